@@ -25,6 +25,13 @@ def tiny_setups():
         s.books[1] = vsynth.flat_book(4, 1, 0)
         s.books[2] = vsynth.lattice_book(2, 2, minv=-1, delta=2)       # 4 entries
         out.append(('tiny_ch%d_f%d_r%d' % (ch, ft, rt), s))
+    # mode counts that are not a power of two: the per-packet mode field can name modes that do not exist
+    for nm in (3, 5):
+        s = vsynth.base_setup(channels=1, bs0=64, bs1=64, restype=1, floortype=1, psize=2, vqdim=2)
+        s.books[1] = vsynth.flat_book(4, 1, 0)
+        s.books[2] = vsynth.lattice_book(2, 2, minv=-1, delta=2)
+        s.modes = [vspec.Mode(k % 2, 0) for k in range(nm)]
+        out.append(('tiny_modes%d' % nm, s))
     for ch, b0, b1, rt, ft in ((1, 64, 128, 1, 1), (2, 128, 256, 2, 1), (3, 64, 512, 0, 0), (2, 256, 2048, 1, 1)):
         out.append(('base_ch%d_%d_%d_r%d_f%d' % (ch, b0, b1, rt, ft), vsynth.base_setup(channels=ch, bs0=b0, bs1=b1, restype=rt, floortype=ft, coupling=[(0, 1)] if ch == 2 else [])))
     return out
